@@ -1010,24 +1010,44 @@ class Interp(object):
         ev = Lin.var(esym)
         se.env[ivar] = ev
         self.cond_facts(cond, se, False)
-        # exit value: reached from `start` by unit steps
+        # exit value: reached from `start` by unit steps.  With cond `i REL bound` the loop either never
+        # runs (i stays at start) or runs until the first value that falsifies cond (`lim`):
+        #   step -1, i >  b : lim = b        step -1, i >= b : lim = b - 1
+        #   step +1, i <  b : lim = b        step +1, i <= b : lim = b + 1
         ce = _strip(cond)
-        if ce.get("kind") == "BinaryOperator":
+        exits = [se]
+        if ce.get("kind") == "BinaryOperator" and ce.get("opcode") in (">", ">=", "<", "<="):
+            l = _strip(ce["inner"][0])
+            lhs_is_ivar = l.get("kind") == "DeclRefExpr" and l["referencedDecl"]["name"] == ivar
             try:
                 bound = self.lin_of(ce["inner"][1], st)
             except Unmodelled:
                 bound = None
-            if isinstance(bound, Lin):
-                if step == -1 and ce.get("opcode") == ">=":
-                    # i stops at bound-1 when start >= bound-1, else stays at start
-                    if st.prove_le(bound - 1, start):
-                        se.le(bound - 1, ev)
-                    else:
-                        se.le(ev, start)
-                elif step == 1 and ce.get("opcode") == "<":
-                    if st.prove_le(start, bound):
-                        se.le(ev, bound)
-        out_states.append(se)
+            op = ce.get("opcode")
+            if isinstance(bound, Lin) and lhs_is_ivar and ((step == -1 and op in (">", ">=")) or
+                                                           (step == 1 and op in ("<", "<="))):
+                if step == -1:
+                    lim = bound if op == ">" else bound - 1
+                    ran, stayed = (lim, start), (start, lim - 1)        # lim <= start | start <= lim - 1
+                else:
+                    lim = bound if op == "<" else bound + 1
+                    ran, stayed = (start, lim), (lim + 1, start)        # start <= lim | lim + 1 <= start
+                exits = []
+                a = se.copy()
+                a.le(*ran)
+                a.le(ev, lim)
+                a.le(lim, ev)
+                if not infeasible(a.facts):
+                    exits.append(a)
+                b = se.copy()
+                b.le(*stayed)
+                b.le(ev, start)
+                b.le(start, ev)
+                if not infeasible(b.facts):
+                    exits.append(b)
+                if not exits:
+                    exits = [se]
+        out_states.extend(exits)
         for b in breaks:
             bs = self.havoc_loop(n, b, keep=[ivar])
             out_states.append(bs)
@@ -1080,3 +1100,57 @@ class Interp(object):
                     ok = proves(s2.facts, l)
                     self.oblige(self.name + ":return", "post", "%s  [ret = %r]" % (rel, val), ok,
                                 "" if ok else "post-condition not provable at this return")
+
+
+def blank_scans(fdecl):
+    """Descending unit-step for-loops that test `buf[i]` against a blank: -> list of
+    dict(ivar, op, bound) where bound is an int literal value or None when not a literal.
+    Used to decide that a trimming scan examines every position down to index 0."""
+    out = []
+
+    def int_of(e):
+        e = _strip(e)
+        if e.get("kind") == "IntegerLiteral":
+            return int(e["value"])
+        if e.get("kind") == "UnaryOperator" and e.get("opcode") == "-":
+            v = int_of(e["inner"][0])
+            return None if v is None else -v
+        return None
+
+    def has_blank_test(n, ivar):
+        found = [False]
+
+        def rec(x):
+            if not isinstance(x, dict):
+                return
+            if x.get("kind") == "BinaryOperator" and x.get("opcode") in ("!=", "=="):
+                a, b = _strip(x["inner"][0]), _strip(x["inner"][1])
+                for u, v in ((a, b), (b, a)):
+                    if u.get("kind") == "ArraySubscriptExpr" and v.get("kind") == "CharacterLiteral" and v.get("value") == 32:
+                        idx = _strip(u["inner"][1])
+                        if idx.get("kind") == "DeclRefExpr" and idx["referencedDecl"]["name"] == ivar:
+                            found[0] = True
+            for c in x.get("inner", []) or []:
+                rec(c)
+        rec(n)
+        return found[0]
+
+    def rec(n):
+        if not isinstance(n, dict):
+            return
+        if n.get("kind") == "ForStmt":
+            inner = n.get("inner", [])
+            if len(inner) == 5:
+                cond, inc, body = inner[2], inner[3], inner[4]
+                e = _strip(inc) if inc and inc.get("kind") else {}
+                if e.get("kind") == "UnaryOperator" and e.get("opcode") == "--":
+                    l = _strip(e["inner"][0])
+                    if l.get("kind") == "DeclRefExpr":
+                        ivar = l["referencedDecl"]["name"]
+                        ce = _strip(cond) if cond and cond.get("kind") else {}
+                        if has_blank_test(body, ivar) and ce.get("kind") == "BinaryOperator":
+                            out.append(dict(ivar=ivar, op=ce.get("opcode"), bound=int_of(ce["inner"][1])))
+        for c in n.get("inner", []) or []:
+            rec(c)
+    rec(fdecl)
+    return out
